@@ -32,10 +32,25 @@
 (* by every check).  A name of length 1 makes the deviation invisible      *)
 (* (Chars(<<c>>) = {<<c>>}).                                               *)
 (*                                                                         *)
+(* Independence of copies (fix 86ec833, finding C20-shallow-copy):         *)
+(* copy() / reverse_copy() promise a collection "with the tagsets copied", *)
+(* i.e. INDEPENDENT of its source.  The source of the last copy is kept    *)
+(* alive as a second observed object (src, reference sabs) for SrcSteps    *)
+(* further calls on the derived object; `al` records which set objects of  *)
+(* the current collection are the SAME Python set object as a set of the   *)
+(* source (only DB.insert mutates a set in place: rdb[tag].add(pkg), and   *)
+(* the sharing derivations pass set objects on).  SourceRefines /          *)
+(* SourceInverse are checked for the source after every later step.        *)
+(* Second spec-level negative control: ShallowCopy = TRUE (dict.copy():    *)
+(* the sets are shared) makes TLC report SourceInverse violated            *)
+(* (MC_Debtags_shallow.cfg: Copy, then Insert under an existing tag).      *)
+(* Sources of derivations documented as "sharing" are out of the domain.   *)
+(*                                                                         *)
 (* Configurations: MC_Debtags.cfg (closed, 3 packages x 3 tags),           *)
 (* MC_Debtags_lts.cfg (same + EDGE/STATE emission), _lts_small (2 packages *)
 (* x 3 tags, the LTS replayed by the quick tier), _big (4 packages),       *)
-(* _dev (negative control).                                                *)
+(* _src (2 packages x 3 tags with the retained source, SrcSteps = 2),      *)
+(* _dev and _shallow (negative controls).                                  *)
 (*                                                                         *)
 (* Domain (DESIGN D3 / section 5 C20): inserts use fresh package names;    *)
 (* read() gets each package on one line only; facet_collection is applied  *)
@@ -56,14 +71,19 @@ CONSTANTS PK,          \* package names offered by the model configuration
           ReadDrops,   \* tag sets offered as read(tag_filter=...): the tags the filter drops
           ReReadKeys,  \* packages used for "read() over a non-empty database" (replaces, never merges)
           InsertNewTagStoresChars,   \* the named deviation (BOOLEAN)
+          ShallowCopy, \* negative control: copy()/reverse_copy() share the set objects with the source
+          SrcSteps,    \* the source of a copy stays observed for this many further calls (0: never)
           Emit         \* TRUE: print EDGE / STATE lines (the complete LTS of the reference)
 
 VARIABLES P, T, R,     \* reference relation
-          db, rdb      \* implementation: the two dictionaries
+          db, rdb,     \* implementation: the two dictionaries
+          sabs,        \* reference relation of the retained source of the last copy
+          src,         \* the retained source object [live, age, db, rdb]
+          al           \* [db, rdb]: for every set of the current object the source set it IS (or NoCell)
 
 avars == <<P, T, R>>
 ivars == <<db, rdb>>
-vars  == <<P, T, R, db, rdb>>
+vars  == <<P, T, R, db, rdb, sabs, src, al>>
 
 ----------------------------------------------------------------------------
 \* names
@@ -163,6 +183,37 @@ ITagCount(st)    == Cardinality(DOMAIN st.rdb)
 IHasPkg(st, n)   == n \in DOMAIN st.db
 IHasTag(st, n)   == n \in DOMAIN st.rdb
 
+\* ---- identity of set objects: which sets of the current object are shared with the retained
+\* source of the last copy()/reverse_copy().  A cell is <<"db", key>> / <<"rdb", key>> of the source.
+NoCell      == <<>>
+NoSrc       == [live |-> FALSE, age |-> 0, db |-> NoDict, rdb |-> NoDict]
+NoAlias(st) == [db |-> [k \in DOMAIN st.db |-> NoCell], rdb |-> [t \in DOMAIN st.rdb |-> NoCell]]
+\* insert: db[pkg] = tags.copy() is a new set; rdb[tag] of an existing tag is MUTATED (stays the
+\* same object); rdb[tag] of a new tag is a new set
+LInsert(a, st, p, S) ==
+   [db  |-> [k \in DOMAIN st.db \cup {p} |-> IF k = p THEN NoCell ELSE a.db[k]],
+    rdb |-> [t \in DOMAIN st.rdb \cup S |-> IF t \in DOMAIN st.rdb THEN a.rdb[t] ELSE NoCell]]
+\* ... and what that in-place mutation does to the source when the set is shared with it
+SrcInsert(s, a, st, p, S) ==
+   LET hit(c) == \E t \in S \cap DOMAIN st.rdb : a.rdb[t] = c
+   IN [s EXCEPT !.db  = [k \in DOMAIN s.db  |-> IF hit(<<"db", k>>)  THEN s.db[k]  \cup {p} ELSE s.db[k]],
+                !.rdb = [t \in DOMAIN s.rdb |-> IF hit(<<"rdb", t>>) THEN s.rdb[t] \cup {p} ELSE s.rdb[t]]]
+LReverse(a)  == [db |-> a.rdb, rdb |-> a.db]               \* reverse(): the very same dictionaries
+\* copy(): {k: v.copy()} -- or, shallow, dict.copy(): new dictionaries holding the source's sets
+LCopy(st, shallow) ==
+   IF shallow THEN [db |-> [k \in DOMAIN st.db |-> <<"db", k>>], rdb |-> [t \in DOMAIN st.rdb |-> <<"rdb", t>>]]
+   ELSE NoAlias(st)
+LReverseCopy(st, shallow) ==
+   IF shallow THEN [db |-> [t \in DOMAIN st.rdb |-> <<"rdb", t>>], rdb |-> [k \in DOMAIN st.db |-> <<"db", k>>]]
+   ELSE NoAlias(IReverse(st))
+\* choose_packages(_copy) / filter_packages / filter_packages_tags: db[pkg] = self.db[pkg] (share = TRUE),
+\* the _copy filters: self.db[pkg].copy(); rdb = reverse(db) is always new.  st2 = the result
+LRestrictDb(a, st2, share)  == [db  |-> [k \in DOMAIN st2.db |-> IF share THEN a.db[k] ELSE NoCell],
+                                rdb |-> [t \in DOMAIN st2.rdb |-> NoCell]]
+LRestrictRdb(a, st2, share) == [db  |-> [k \in DOMAIN st2.db |-> NoCell],
+                                rdb |-> [t \in DOMAIN st2.rdb |-> IF share THEN a.rdb[t] ELSE NoCell]]
+CellOf(s, c) == IF c[1] = "db" THEN s.db[c[2]] ELSE s.rdb[c[2]]
+
 \* the two indexes as pair sets, and the abstraction function
 PairsDb(st)  == UNION {{<<p, t>> : t \in st.db[p]} : p \in DOMAIN st.db}
 PairsRdb(st) == UNION {{<<p, t>> : p \in st.rdb[t]} : t \in DOMAIN st.rdb}
@@ -182,38 +233,63 @@ Edge(op, a, s, lines) ==
 
 Dev == InsertNewTagStoresChars
 
-Init == P = {} /\ T = {} /\ R = {} /\ db = NoDict /\ rdb = NoDict
+Init == /\ P = {} /\ T = {} /\ R = {} /\ db = NoDict /\ rdb = NoDict
+        /\ sabs = AEmpty /\ src = NoSrc /\ al = NoAlias(IEmpty)
+
+\* a call that is not a copy: s = the source after the effects of the call, a2 = the identities of
+\* the sets of the new current object st2; the source is released SrcSteps calls after the copy
+KeepSrc(s, a2, st2) ==
+   IF s.live /\ s.age < SrcSteps
+   THEN src' = [s EXCEPT !.age = s.age + 1] /\ al' = a2 /\ UNCHANGED sabs
+   ELSE src' = NoSrc /\ al' = NoAlias(st2) /\ sabs' = AEmpty
+\* copy()/reverse_copy()/pickle: the object copied (st) becomes the retained source
+Retain(st, a2, st2) ==
+   IF SrcSteps > 0
+   THEN src' = [live |-> TRUE, age |-> 0, db |-> st.db, rdb |-> st.rdb] /\ sabs' = Abs /\ al' = a2
+   ELSE src' = NoSrc /\ al' = NoAlias(st2) /\ sabs' = AEmpty
 
 \* An EDGE is printed once per reference transition; where several methods of DB implement the
 \* same reference transition (`variants`), each of them is a disjunct of the implementation
 \* layer, so Refines is checked for every one of them and the harness may call any of them.
-Read(lines, drop) == SetAbs(ARead(lines, drop)) /\ Edge("read", <<>>, drop, lines) /\ SetImpl(IRead(lines, drop))
+Read(lines, drop) == /\ SetAbs(ARead(lines, drop))
+                     /\ Edge("read", <<>>, drop, lines)
+                     /\ LET st2 == IRead(lines, drop) IN SetImpl(st2) /\ KeepSrc(src, NoAlias(st2), st2)
 Insert(p, S)      == /\ p \notin P
                      /\ SetAbs(AInsert(Abs, p, S))
                      /\ Edge("insert", p, S, <<>>)
-                     /\ SetImpl(IInsert(Impl, p, S, Dev))
+                     /\ LET st2 == IInsert(Impl, p, S, Dev)
+                        IN SetImpl(st2) /\ KeepSrc(SrcInsert(src, al, Impl, p, S), LInsert(al, Impl, p, S), st2)
 \* reverse() / reverse_copy()
 Reverse           == /\ SetAbs(AReverse(Abs))
                      /\ Edge("reverse", <<>>, {}, <<>>)
-                     /\ (SetImpl(IReverse(Impl)) \/ SetImpl(IReverseCopy(Impl)))
-\* copy() / qwrite() + qread() into a new DB
-Copy              == SetAbs(Abs) /\ Edge("copy", <<>>, {}, <<>>) /\ SetImpl(ICopy(Impl))
+                     /\ \/ SetImpl(IReverse(Impl)) /\ KeepSrc(src, LReverse(al), IReverse(Impl))
+                        \/ SetImpl(IReverseCopy(Impl))
+                           /\ Retain(Impl, LReverseCopy(Impl, ShallowCopy), IReverseCopy(Impl))
+\* copy() / qwrite() + qread() into a new DB (never shares)
+Copy              == /\ SetAbs(Abs)
+                     /\ Edge("copy", <<>>, {}, <<>>)
+                     /\ SetImpl(ICopy(Impl))
+                     /\ (Retain(Impl, LCopy(Impl, ShallowCopy), ICopy(Impl)) \/ Retain(Impl, NoAlias(Impl), ICopy(Impl)))
 \* choose_packages(S \cup X) with X absent names / choose_packages_copy(S) /
 \* filter_packages(_copy)(in S) / filter_packages_tags(_copy)(item key in S),   S \subseteq P
 RestrictPackages(S, X) ==
                      /\ S \subseteq P /\ X \cap P = {}
                      /\ SetAbs(ARestrictP(Abs, S))
                      /\ Edge("restrict_p", <<>>, S, <<>>)
-                     /\ \/ SetImpl(IChoose(Impl, S)) \/ SetImpl(IChoose(Impl, S \cup X))
-                        \/ SetImpl(IChooseCopy(Impl, S))
-                        \/ SetImpl(IFilterP(Impl, S)) \/ SetImpl(IFilterPT(Impl, S))
+                     /\ \E st2 \in {IChoose(Impl, S), IChoose(Impl, S \cup X), IChooseCopy(Impl, S),
+                                    IFilterP(Impl, S), IFilterPT(Impl, S)} :
+                           /\ SetImpl(st2)
+                           /\ \E share \in BOOLEAN : KeepSrc(src, LRestrictDb(al, st2, share), st2)
 \* filter_tags(_copy)(in S)
-FilterTags(S)     == SetAbs(ARestrictT(Abs, S)) /\ Edge("filter_t", <<>>, S, <<>>) /\ SetImpl(IFilterT(Impl, S))
+FilterTags(S)     == /\ SetAbs(ARestrictT(Abs, S))
+                     /\ Edge("filter_t", <<>>, S, <<>>)
+                     /\ LET st2 == IFilterT(Impl, S)
+                        IN SetImpl(st2) /\ \E share \in BOOLEAN : KeepSrc(src, LRestrictRdb(al, st2, share), st2)
 FacetCollection   == /\ AFacetDomain(Abs)
                      /\ SetAbs(AFacet(Abs))
                      /\ Edge("facet", <<>>, {}, <<>>)
                      /\ \E order \in (IF Dev THEN SetToSeqs(DOMAIN db) ELSE {SetToSeq(DOMAIN db)}) :
-                           SetImpl(IFacet(Impl, order, Dev))
+                           LET st2 == IFacet(Impl, order, Dev) IN SetImpl(st2) /\ KeepSrc(src, NoAlias(st2), st2)
 
 \* ---- bounded choice of arguments for the closed configurations
 FC        == {FacetOf(t) : t \in FT}                      \* the facets of the model tags
@@ -251,6 +327,13 @@ QueriesAgree == /\ IPkgCount(Impl) = APkgCount(Abs) /\ ITagCount(Impl) = ATagCou
                                        /\ ICard(Impl, n) = ACard(Abs, n)
                                        /\ IHasPkg(Impl, n) = AHasPkg(Abs, n)
                                        /\ IHasTag(Impl, n) = AHasTag(Abs, n)
+\* the retained source of a copy is untouched by everything done to the copy and its derivations
+SourceInverse == src.live => InverseOf(src)
+SourceRefines == src.live => (AbsOf(src) = sabs /\ InverseOf(src))
+\* a shared set object has one value
+AliasOK      == /\ \A k \in DOMAIN db  : al.db[k]  # NoCell => (src.live /\ CellOf(src, al.db[k])  = db[k])
+                /\ \A t \in DOMAIN rdb : al.rdb[t] # NoCell => (src.live /\ CellOf(src, al.rdb[t]) = rdb[t])
+                /\ DOMAIN al.db = DOMAIN db /\ DOMAIN al.rdb = DOMAIN rdb
 \* the closed form used by trace validation explains every dictionary order of facet_collection
 FacetFormsAgree == IFacetDomain(Impl) =>
                       /\ \A order \in SetToSeqs(DOMAIN db) :
@@ -276,6 +359,8 @@ MC_PK   == {<<1>>, <<2, 3>>, <<4, 5, 4>>}
 MC_PK4  == MC_PK \cup {<<11, 12>>}
 MC_PK2  == {<<1>>, <<2, 3, 2>>}                 \* quick LTS: p, aba (3 characters, 2 distinct)
 MC_FT   == {<<6, 7, 0, 0, 8>>, <<6, 7, 0, 0, 9>>, <<10, 0, 0, 8>>}
+MC_FT2  == {<<6, 7, 0, 0, 8>>, <<10, 0, 0, 8>>}    \* quick retained-source configuration: fg::h, j::h
+MC_Drops1 == {{}}
 MC_Drops == {{}, {<<6, 7, 0, 0, 8>>}, {<<6, 7, 0, 0, 9>>, <<10, 0, 0, 8>>}}
 MC_ReRead == {<<2, 3>>}
 MC_ReRead2 == {<<2, 3, 2>>}
